@@ -128,7 +128,7 @@ CLAIMED["C08"] = dict(
          "receives exactly the remaining bytes in non-empty chunks; the code as found is proved to spin on any cut head. The executable "
          "model's parser is proved stable. Tied by translator facts (Http1Facts.v) and by the differential run of the real codec on "
          "in-memory streams: every 1-cut, random 2/3-cuts, byte-at-a-time, line cuts, truncated streams, size and header-count limits, "
-         "near-miss invalid heads (metamorphic: same as whole delivery), response well-formedness, read-poll count",
+         "near-miss invalid heads (metamorphic: same as whole delivery), response well-formedness, read-poll count; theorem response_head_is_well_formed: for every status, reason and field list as the http crate holds them the bytes encode_response writes are read back under the RFC 9112 grammar (Spec/Rfc9112.v) as exactly those fields, ending where the payload starts; tied by the fact on the writers' text and the doors verif::http1::encode_response / encode_request against the model and an independent reader",
     note="partial: httparse is a parameter of the proof (assumed left-to-right stable; checked only by the differential run); the "
          "download direction and the EOF/dropped-sink arbitration are exercised by the run, not proved; trusted: Coq kernel, "
          "Model/Http1.v, translator facts, extraction + driver, harness door verif::http1",
@@ -142,8 +142,8 @@ CLAIMED["C17"] = dict(
          "yields the concatenated data and the end of body), delivers exactly n bytes for Content-Length n and everything for "
          "close-delimited bodies; the model's hex/extension parser is proved to meet the hypotheses. Tied by translator facts "
          "(ForwardedFacts.v) and by the differential run of the real into_forwarded pair + real DuplexPipe against an independent oracle for "
-         "request serialization, hop-by-hop filtering, interim responses, bodiless statuses and bodies; 48+ exchanges through the real endpoint (Core::listen): real HTTP/2-over-TLS and HTTP/3-over-QUIC clients against a scripted origin on loopback, same oracle; large bodies into a small client window, and a sweep of piece sizes that runs an HTTP/3 stream's window down to its last bytes",
-    note="partial: response-head parsing, request serialization and header filtering are checked by the differential run only; "
+         "request serialization, hop-by-hop filtering, interim responses, bodiless statuses and bodies; 48+ exchanges through the real endpoint (Core::listen): real HTTP/2-over-TLS and HTTP/3-over-QUIC clients against a scripted origin on loopback, same oracle; large bodies into a small client window, and a sweep of piece sizes that runs an HTTP/3 stream's window down to its last bytes; theorems response_fields_minus_hop_by_hop (for every field list in any order the fields handed on are exactly the end-to-end ones, in order; Model/HopByHop.v) and origin_request_head_is_well_formed (the request head written to the origin is read back under the RFC 9112 grammar as its fields, the authority first as Host); the origin's fields are shuffled in the exchanges",
+    note="partial: response-head parsing (httparse) is checked by the differential run only; request serialization and the hop-by-hop filter have their own models (Model/Http1Wire.v against the reader Spec/Rfc9112.v, Model/HopByHop.v with ASCII trimming and lower-casing) tied by facts, the encode doors and the shuffled-field exchanges; "
          "httparse::parse_chunk_size is a parameter; known finding h2-request-body-unframed; trusted: Coq kernel, Model/Forwarded.v, "
          "translator facts, extraction + driver, harness door verif::forwarded",
     design="DESIGN.md 5 C17")
